@@ -1454,7 +1454,7 @@ def scen_C12(ctx):
                 'lists, value file past 16 KiB) are opened read-only by the current build (contents = committed expectation, files byte-identical '
                 'after close), decoded by the independent decoder, reproduced byte for byte by the model from the committed history (so the model '
                 'state equals the golden image), and then driven by further random histories (L_api + L_img); 64 hash vectors of the crate are '
-                're-proved in Coq on every run (gen/Hash_vectors.v) and 256 frozen (key, hash) vectors are compared; distinct = distinct op files')
+                're-proved in Coq on every run (gen/Hash_vectors.v) and 256 frozen (key, hash) vectors are compared; `dotted`: golden images under dotted map names (derived by renaming the three files - the released naming is <name>.htx/.key/.val) must be found, read, updated and leave exactly those three files; distinct = distinct op files')
     gd = os.path.join(C.VERIF, 'golden')
     names = sorted(n for n in os.listdir(gd) if os.path.isdir(os.path.join(gd, n)))
     import filecmp
@@ -1551,6 +1551,54 @@ def scen_C12(ctx):
                 break
         shutil.rmtree(w, ignore_errors=True)
     parallel(one, list(enumerate(names)))
+
+    # the file NAMES are part of the released format: a map called <name> lives in <name>.htx / <name>.key / <name>.val, whatever
+    # the name contains (the pinned release builds them with format!("{name}.htx") ...).  A golden image under a dotted map name
+    # is DERIVED from a committed one by renaming its three files (the name is stored nowhere else): the current build must find
+    # it under that name, read the committed contents, update it, and leave exactly the three files it found
+    def dotted(a):
+        i, (name, mapname) = a
+        kt = name.split('_')[0]
+        src = os.path.join(gd, name)
+        exp = {}
+        for l in open(os.path.join(src, 'expected.txt')):
+            k, v = l.split()
+            exp[O.unhex(k)] = O.unhex(v)
+        w = os.path.join(ctx.root, 'gd_%d' % i)
+        shutil.rmtree(w, ignore_errors=True)
+        os.makedirs(os.path.join(w, 'impl', 'db'))
+        for ext in ('htx', 'key', 'val'):
+            shutil.copy(os.path.join(src, 'db', 'gold.' + ext), os.path.join(w, 'impl', 'db', '%s.%s' % (mapname, ext)))
+        ks = sorted(exp)
+        ops = ['db d0 db', 'map m0 d0 %s %s default' % (kt, mapname)] + ['get m0 %s' % G.hx(k) for k in ks] + ['len m0', 'put m0 %s 7a7a' % G.hx(ks[0] if ks else b'k'),
+               'closeall', 'db d0 db', 'map m0 d0 %s %s default' % (kt, mapname), 'get m0 %s' % G.hx(ks[0] if ks else b'k'), 'len m0', 'closeall']
+        f = os.path.join(w, 'dotted.ops')
+        C.write_ops(f, ops)
+        il, ist = C.run_impl(f, os.path.join(w, 'impl'))
+        ctx.evaluations += 1
+        ctx.distinct.add('dotted:%s:%s' % (name, mapname))
+        bad = None
+        if ist != 'ok' or len(il) < len(ops):
+            bad = 'the run ends with %s after %d lines' % (ist, len(il))
+        else:
+            for j, k in enumerate(ks):
+                if il[2 + j] != 'some:' + O.show(exp[k]):
+                    bad = 'key %s reads `%s`, the pinned release stored `%s`' % (G.hx(k), il[2 + j], 'some:' + O.show(exp[k])); break
+            if not bad and il[2 + len(ks)] != str(len(exp)):
+                bad = 'len() is %s, the image holds %d entries' % (il[2 + len(ks)], len(exp))
+            if not bad and (il[-3] != 'some:' + O.show(b'zz') or il[-2] != str(max(len(exp), 1))):
+                bad = 'after an update and a reopen: get `%s`, len `%s`' % (il[-3], il[-2])
+            if not bad:
+                have = sorted(os.listdir(os.path.join(w, 'impl', 'db')))
+                want = sorted('%s.%s' % (mapname, e) for e in ('htx', 'key', 'val'))
+                if have != want:
+                    bad = 'the directory now holds %s instead of %s' % (have, want)
+        if bad:
+            ctx.violation('golden_dotted_%s' % name, 'golden image %s (written by the pinned release) under the map name `%s` - files %s.htx/.key/.val, the released naming: %s\n'
+                          'replay: copy /verif/golden/%s/db/gold.* to <dir>/db/%s.* and run the ops below with the harness' % (name, mapname, mapname, bad, name, mapname), ops)
+        shutil.rmtree(w, ignore_errors=True)
+    dn = ['v1.0', 'img.2024', 'a.b.c', 'x.htx', 'users.v1']
+    parallel(dotted, list(enumerate([(n, dn[j % len(dn)]) for j, n in enumerate(names[::3] if ctx.quick else names)])))
     # frozen hash vectors
     fv = os.path.join(gd, 'hash_vectors.txt')
     if os.path.exists(fv):
